@@ -24,7 +24,7 @@ def _sha(path):
         return hashlib.sha256(fh.read()).hexdigest()
 
 
-def _project(path, rootless=False):
+def _project(path, rootless=False, holes=False):
     import h5py
 
     from geoh5py.groups import ContainerGroup
@@ -38,6 +38,13 @@ def _project(path, rootless=False):
         p.add_data({"e": {"values": np.arange(6.0) + 10}})
         p.add_data_to_group(a, "pg")
         Curve.create(ws, name="crv", vertices=np.arange(12.0).reshape(4, 3))
+        if holes:
+            from geoh5py.groups import DrillholeGroup
+            from geoh5py.objects import Drillhole
+
+            dg = DrillholeGroup.create(ws, name="DH")
+            dh = Drillhole.create(ws, name="H0", parent=dg, collar=[0.0, 0.0, 0.0], surveys=np.c_[np.r_[0.0, 10.0], np.zeros(2), np.ones(2) * -90.0])
+            dh.add_data({"Au": {"depth": np.array([1.0, 2.0, 3.0]), "values": np.arange(3.0)}})
     if rootless:
         with h5py.File(path, "r+") as f:
             del f[list(f)[0]]["Root"]
@@ -48,6 +55,7 @@ def _project(path, rootless=False):
 # ------------------------------------------------------------------------------------------
 
 RO_OPS = ("get", "values", "children", "rename", "set_values", "set_vertices", "create", "add_data", "remove", "copy_same", "copy_other", "pg_add", "type_edit", "root_type_edit", "remove_child", "remove_child_held",
+          "hole_add_data", "hole_add_empty_channel", "hole_rename", "hole_values", "hole_data_flag", "hole_surveys", "hole_remove_data",
           "close_open", "close_open_r", "fetch_active_r", "fetch_active_rw", "idle")
 
 
@@ -58,9 +66,9 @@ class ReadOnlyHistories(Contract):
     has_native = True
     native_shards = 4
     props = ("C10",)
-    bounded_scope = ("a 5-entity project opened with mode 'r'; sequences of 3-8 calls over getters, setters (on entities and on entity types, the root's included), creations, removals (through the workspace and through the parent, also repeated with a handle kept from an earlier attempt or session), copies, property-group edits, close/re-open "
+    bounded_scope = ("a 5-entity project (plus a drillhole group with one hole and a depth log when the sequence touches drillholes) opened with mode 'r'; sequences of 3-8 calls over getters, setters (on entities and on entity types, the root's included), creations, removals (through the workspace and through the parent, also repeated with a handle kept from an earlier attempt or session), copies, property-group edits, close/re-open "
                      "(with and without an explicit mode) and fetch_active_workspace: after every call the file's sha256 is unchanged, an open handle reports mode 'r', and every "
-                     "call that has to write raised; 14 fixed + 40 seeded sequences (quick) / 600 (thorough); plus the ui.json loader and monitoring-directory helpers on ordinary "
+                     "call that has to write raised; 18 fixed + 40 seeded sequences (quick) / 600 (thorough); plus the ui.json loader and monitoring-directory helpers on ordinary "
                      "and root-less files")
 
     FIXED = [
@@ -77,6 +85,10 @@ class ReadOnlyHistories(Contract):
         [("type_edit", 0), ("type_edit", 1), ("type_edit", 2), ("type_edit", 3), ("root_type_edit", 0)],
         [("root_type_edit", 0), ("close_open", 0), ("root_type_edit", 0), ("type_edit", 5)],
         [("remove_child", 1), ("remove_child_held", 1), ("close_open", 0), ("remove_child_held", 1)],
+        [("remove", 1), ("rename", 1), ("set_values", 1), ("set_vertices", 1), ("remove", 1), ("add_data", 1)],
+        [("remove", 0), ("set_vertices", 0), ("rename", 0), ("close_open", 0), ("rename", 0)],
+        [("hole_add_data", 0), ("hole_add_empty_channel", 0), ("hole_rename", 0), ("hole_values", 0)],
+        [("hole_add_empty_channel", 0), ("close_open", 0), ("hole_data_flag", 0), ("hole_surveys", 0), ("hole_remove_data", 0), ("hole_add_empty_channel", 0)],
         [("remove_child", 1), ("close_open", 0), ("remove_child_held", 1), ("remove_child", 1), ("remove_child_held", 1)],
     ]
 
@@ -109,11 +121,13 @@ class ReadOnlyHistories(Contract):
         from geoh5py.workspace import Workspace
 
         path = os.path.join(d, "ro.geoh5")
-        _project(path)
+        _project(path, holes=any(op.startswith("hole_") for op, _ in case["ops"]))
         before = _sha(path)
         other = Workspace.create(os.path.join(d, "other.geoh5"))
         ws = Workspace(path, mode="r")
         held = {}
+        # what is in the file is known from the file (it never changes in this mode), not from flags the library keeps
+        stored = {e.uid for e in list(ws.objects) + list(ws.groups) + list(ws.data)}
         try:
             for step, (op, a) in enumerate(case["ops"]):
                 tag = f"step {step} ({op} {a})"
@@ -121,7 +135,7 @@ class ReadOnlyHistories(Contract):
                 try:
                     # only entities that are in the file: a creation or copy refused half-way may leave an
                     # in-memory entity behind, and editing that one does not have to write
-                    objs = sorted([x for x in ws.objects if x.on_file], key=lambda x: x.name)
+                    objs = sorted([x for x in ws.objects if x.uid in stored], key=lambda x: x.name)
                     o = objs[a % len(objs)] if objs else None
                     if op == "get":
                         ws.get_entity("pts"), ws.list_entities_name
@@ -142,12 +156,40 @@ class ReadOnlyHistories(Contract):
                             pass
                     elif op == "copy_other" and o is not None:
                         o.copy(parent=other)
+                    elif op.startswith("hole_"):
+                        # a drillhole of a drillhole group: its data live in the group's concatenated storage
+                        from geoh5py.groups import DrillholeGroup
+
+                        grp = [g_ for g_ in ws.groups if isinstance(g_, DrillholeGroup)][0]
+                        hole = [c for c in grp.children if c.name.startswith("H0")][0]
+                        wrote = False
+                        if op == "hole_add_data":
+                            hole.add_data({f"log{step}": {"depth": np.array([1.0, 2.0]), "values": np.arange(2.0)}})
+                        elif op == "hole_add_empty_channel":
+                            # a channel without values that re-uses the type of a stored channel: nothing but the records to write
+                            hole.add_data({f"empty{step}": {"values": None, "association": "OBJECT", "entity_type": hole.get_data("Au")[0].entity_type}})
+                        elif op == "hole_rename":
+                            hole.name = hole.name + "x"
+                        elif op == "hole_values":
+                            dat = hole.get_data("Au")[0]
+                            dat.values = np.asarray(dat.values, dtype=float) + 1
+                        elif op == "hole_data_flag":
+                            dat = hole.get_data("Au")[0]
+                            dat.allow_rename = not dat.allow_rename
+                        elif op == "hole_surveys":
+                            hole.surveys = np.c_[np.r_[0.0, 20.0], np.zeros(2), np.ones(2) * -80.0]
+                        elif op == "hole_remove_data":
+                            ws.remove_entity(hole.get_data("Au")[0])
+                        else:
+                            wrote = None
+                        if wrote is False:
+                            wrote = True
                     elif o is not None:
                         wrote = False
                         if op == "rename":
                             o.name = o.name + "x"
                         elif op == "set_values":
-                            kids = [c for c in o.children if hasattr(c, "values") and c.on_file]
+                            kids = [c for c in o.children if hasattr(c, "values") and c.uid in stored]
                             if kids:
                                 kids[0].values = np.asarray(kids[0].values) + 1
                             else:
@@ -165,7 +207,7 @@ class ReadOnlyHistories(Contract):
                             # (a refused attempt may already have dropped the child from the in-memory list)
                             kid = held.get(o.name) if op == "remove_child_held" else None
                             if kid is None:
-                                kids = [c for c in o.children if hasattr(c, "values") and c.on_file]
+                                kids = [c for c in o.children if hasattr(c, "values") and c.uid in stored]
                                 kid = kids[0] if kids else None
                             if kid is None:
                                 wrote = None
@@ -175,7 +217,7 @@ class ReadOnlyHistories(Contract):
                         elif op == "copy_same":
                             o.copy()
                         elif op == "pg_add":
-                            kids = [c for c in o.children if hasattr(c, "values") and c.on_file]
+                            kids = [c for c in o.children if hasattr(c, "values") and c.uid in stored]
                             if kids:
                                 o.add_data_to_group(kids[0], "pg2")
                             else:
